@@ -16,6 +16,7 @@ import (
 type Frame struct {
 	inDevirt   bool
 	cutArgs    []*Val
+	cutHits    map[string]bool // cut point keys that attached to a call site
 	cutResult  *Val
 	fn         *ssa.Function
 	regs       map[ssa.Value]*Val
